@@ -1,0 +1,97 @@
+//go:build verif
+
+package model
+
+// Contracts for the deductive verifier in /verif (govc).  This file contains comments only;
+// it is compiled only with -tags verif and declares nothing.
+
+//@ spec opaque fullType(v Var) string = cond(v.Pointer, "*" + v.Type, v.Type)
+//@
+//@ func (Var).FullType(v) (r)
+//@   ensures {C08,C10,C01} r == fullType(v)
+//@   reveal fullType
+//@
+//@ func (Var).PtrLessFullType(v) (r)
+//@   ensures {C08,C01} r == v.Type
+
+// ---- statement templates (C05, C07, C16, C02) -------------------------------------------------
+
+//@ spec skipText(s SkipField) string = "// skip: " + s.LHS + "\n"
+//@ spec noMatchText(s NoMatchField) string = "// no match: " + s.LHS + "\n"
+//@ spec simpleText(s SimpleField) string = s.LHS + cond(s.Error, ", err", "") + " = " + s.RHS + "\n"
+//@ spec sliceGuard(rhs string, lhs string, typ string) string =
+//@     "if " + rhs + " != nil {\n" + lhs + " = make(" + typ + ", len(" + rhs + "))\n"
+//@ spec sliceCopyText(c SliceAssignment) string =
+//@     sliceGuard(c.RHS, c.LHS, c.Typ) + "copy(" + c.LHS + ", " + c.RHS + ")\n}\n"
+//@ spec sliceLoopText(c SliceLoopAssignment) string =
+//@     sliceGuard(c.RHS, c.LHS, c.Typ) + "for i, e := range " + c.RHS + "{\n" + c.LHS + "[i] = e\n}\n}\n"
+//@ spec sliceCastText(c SliceTypecastAssignment) string =
+//@     sliceGuard(c.RHS, c.LHS, c.Typ) + "for i, e := range " + c.RHS + "{\n" + c.LHS + "[i] = " + c.Cast + "(e)\n}\n}\n"
+//@ spec nestText(n NestStruct) string =
+//@     cond(n.NullCheckExpr != "", "if " + n.NullCheckExpr + " != nil {\n", "") +
+//@     cond(n.InitExpr != "", n.InitExpr + "\n", "") +
+//@     contentsText(n.Contents, len(n.Contents)) +
+//@     cond(n.NullCheckExpr != "", "}\n", "")
+//@ spec contentsText(cs []Assignment, k int) string =
+//@     cond(k <= 0, "", contentsText(cs, k-1) + assignText(cs[k-1]))
+//@ spec otherAssignText(a Assignment) string
+//@ spec otherAssignErr(a Assignment) bool
+//@ spec assignText(a Assignment) string =
+//@     cond(is(a, SkipField), skipText(as(a, SkipField)),
+//@     cond(is(a, NoMatchField), noMatchText(as(a, NoMatchField)),
+//@     cond(is(a, SimpleField), simpleText(as(a, SimpleField)),
+//@     cond(is(a, NestStruct), nestText(as(a, NestStruct)),
+//@     cond(is(a, SliceAssignment), sliceCopyText(as(a, SliceAssignment)),
+//@     cond(is(a, SliceLoopAssignment), sliceLoopText(as(a, SliceLoopAssignment)),
+//@     cond(is(a, SliceTypecastAssignment), sliceCastText(as(a, SliceTypecastAssignment)),
+//@          otherAssignText(a))))))))
+//@ spec assignErr(a Assignment) bool =
+//@     cond(is(a, SimpleField), as(a, SimpleField).Error,
+//@     cond(is(a, SkipField) || is(a, NoMatchField) || is(a, NestStruct) || is(a, SliceAssignment) ||
+//@          is(a, SliceLoopAssignment) || is(a, SliceTypecastAssignment), false, otherAssignErr(a)))
+//@
+//@ spec wfAssign(a Assignment) bool =
+//@     a != nil && cond(is(a, NestStruct), wfContents(as(a, NestStruct).Contents), true)
+//@ spec wfContents(cs []Assignment) bool = forall(i, 0, len(cs), wfAssign(cs[i]))
+//@
+//@ iface (Assignment).String = assignText requires wfAssign
+//@ iface (Assignment).RetError = assignErr
+//@
+//@ func (SkipField).String(s) (r)
+//@   ensures {C05,C07,C02} r == "// skip: " + s.LHS + "\n"
+//@   ensures {C05,C07,C02} r == assignText(box(s))
+//@ func (SkipField).RetError(s) (r)
+//@   ensures {C07} r == false && r == assignErr(box(s))
+//@ func (NoMatchField).String(s) (r)
+//@   ensures {C05,C07,C02} r == "// no match: " + s.LHS + "\n"
+//@   ensures {C05,C07,C02} r == assignText(box(s))
+//@ func (NoMatchField).RetError(s) (r)
+//@   ensures {C07} r == false && r == assignErr(box(s))
+//@ func (SimpleField).String(s) (r)
+//@   ensures {C07,C02,C01} r == s.LHS + cond(s.Error, ", err", "") + " = " + s.RHS + "\n"
+//@   ensures {C07,C02,C01} r == assignText(box(s))
+//@ func (SimpleField).RetError(s) (r)
+//@   ensures {C07} r == s.Error && r == assignErr(box(s))
+//@ func (NestStruct).String(s) (r)
+//@   requires wfContents(s.Contents)
+//@   ensures {C07,C02,C05} r == nestText(s)
+//@   ensures {C07,C02,C05} r == assignText(box(s))
+//@   loop 1 invariant sb.String() == entry(sb.String()) + contentsText(s.Contents, $k)
+//@   loop 1 invariant $k <= len(s.Contents)
+//@ func (NestStruct).RetError(s) (r)
+//@   ensures {C07} r == assignErr(box(s))
+//@ func (SliceAssignment).String(c) (r)
+//@   ensures {C16,C02} r == "if " + c.RHS + " != nil {\n" + c.LHS + " = make(" + c.Typ + ", len(" + c.RHS + "))\ncopy(" + c.LHS + ", " + c.RHS + ")\n}\n"
+//@   ensures {C16,C07,C02} r == assignText(box(c))
+//@ func (SliceAssignment).RetError(c) (r)
+//@   ensures {C07} r == false && r == assignErr(box(c))
+//@ func (SliceLoopAssignment).String(c) (r)
+//@   ensures {C16,C02} r == "if " + c.RHS + " != nil {\n" + c.LHS + " = make(" + c.Typ + ", len(" + c.RHS + "))\nfor i, e := range " + c.RHS + "{\n" + c.LHS + "[i] = e\n}\n}\n"
+//@   ensures {C16,C07,C02} r == assignText(box(c))
+//@ func (SliceLoopAssignment).RetError(c) (r)
+//@   ensures {C07} r == false && r == assignErr(box(c))
+//@ func (SliceTypecastAssignment).String(c) (r)
+//@   ensures {C16,C02} r == "if " + c.RHS + " != nil {\n" + c.LHS + " = make(" + c.Typ + ", len(" + c.RHS + "))\nfor i, e := range " + c.RHS + "{\n" + c.LHS + "[i] = " + c.Cast + "(e)\n}\n}\n"
+//@   ensures {C16,C07,C02} r == assignText(box(c))
+//@ func (SliceTypecastAssignment).RetError(c) (r)
+//@   ensures {C07} r == false && r == assignErr(box(c))
